@@ -235,12 +235,21 @@ def run(repo, rep, tier):
             if k == 'while':
                 rep.check('bound', 'no while loop around a GEX probe', False, n, 'GEX probe inside a while loop')
         gex_calls += mult
+    rep.floor('bound', '_send_init call sites in GEXTest.run', len(sis), 2)
     gex_algs = None
     for n in walk_no_nested(gr):
         if isinstance(n, ast.Assign) and unparse(n.targets[0]) == 'GEX_ALGS' and isinstance(n.value, ast.Dict):
             gex_algs = len(n.value.keys)
     outer = [n for n in walk_no_nested(gr) if isinstance(n, ast.For) and unparse(n.iter) == 'GEX_ALGS.items()']
-    rep.check('bound', 'GEX probe outer loop iterates the literal GEX_ALGS table', len(outer) == 1 and gex_algs is not None, gr, 'GEX_ALGS loop changed')
+    if not (len(outer) == 1 and gex_algs is not None):
+        # the outer loop is not the recognised `for ... in GEX_ALGS.items()` over a literal dict: a loop over something the peer supplies is a violation,
+        # any other respelling cannot be counted by this rule
+        loops_ = [n for n in walk_no_nested(gr) if isinstance(n, ast.For) and any(isinstance(x, ast.Call) and call_name(x) == 'GEXTest._send_init' for x in ast.walk(n))]
+        for lp_ in loops_:
+            if any(isinstance(x, ast.Name) and x.id in ('kex', 'server_kex', 'payload') for x in ast.walk(lp_.iter)) and not (isinstance(lp_.iter, (ast.Tuple, ast.List))):
+                rep.check('bound', 'GEX probe loops are bounded by literal tables, not by a peer-supplied list', False, lp_, 'the group-exchange probe opens connections per element of %s: the number of connections is chosen by the peer' % unparse(lp_.iter)[:80], stmt='GEX probe loop source')
+        if not rep.findings or not any(f.rule == 'bound' and 'GEX probe loop source' in str(f.key()) for f in rep.findings):
+            raise AnalysisError('GEX probe outer loop is not the recognised loop over the literal GEX_ALGS table: the static connection ceiling cannot be computed')
     rc = repo.func('gextest', 'GEXTest.reconnect')
     rconn = [n for n in walk_no_nested(rc) if isinstance(n, ast.Call) and unparse(n.func) == 's.connect']
     ok = len(rconn) == 1 and not [k for t, pp, k in path_condition(rconn[0]) if k in ('for', 'while')]
